@@ -28,6 +28,10 @@ def cases():
     for pub in ('manual', 'gen', 'agen'):
         C.append(('stream-%s-cancel-in-on_subscribe' % pub, dict(kind='stream', down=3, pub=pub, cancel_after=-1, credit='max', ending='flag' if pub != 'manual' else 'complete')))
     C.append(('channel-gen-cancel-in-on_subscribe', dict(kind='channel', down=3, up=1, pub='gen', cancel_after=-1, credit='max', ending='flag')))
+    # ... and a channel whose requester has no publisher of its own (its sending side completes with the request)
+    for pub in ('manual', 'gen', 'agen'):
+        C.append(('channel-%s-nopub-cancel-in-on_subscribe' % pub, dict(kind='channel', down=3, up=-1, pub=pub, cancel_after=-1, credit='max', ending='flag' if pub != 'manual' else 'complete')))
+        C.append(('channel-%s-nopub-c0' % pub, dict(kind='channel', down=3, up=-1, pub=pub, cancel_after=0, credit='max', ending='flag' if pub != 'manual' else 'complete')))
     # the peer's direction ends with an ERROR that may still be in flight when cancel() is called
     C.append(('channel-manual-error-c0', dict(kind='channel', down=1, up=2, pub='manual', cancel_after=0, credit='max', ending='error')))
     C.append(('channel-manual-error-c1', dict(kind='channel', down=2, up=2, pub='manual', cancel_after=1, credit='one', ending='error')))
